@@ -44,6 +44,10 @@ CLAIMED = {
    text="Machine-checked proof (Coq) over a model of the Go-level storage of lists (slice headers over backing arrays; in-place append/store/delete, reallocation when capacity is exhausted, fresh storage for copies): every operation preserves the invariant that distinct list objects never share storage and leaves the contents of every other list object unchanged, and a copy starts with equal contents in separate storage - so a mutation is visible exactly through the aliases of the mutated object and never through a copy. The implementation's lists, string-keyed dicts and sets are compared with CPython on seeded operation histories over aliased and copied containers (state of all containers printed after every operation), plus sort-stability and targeted probes.",
    note="Trusted: Coq kernel; the hand-written storage model (not tied by a structural correspondence: the tie is the history comparison); CPython 3.11 as validated oracle (dict/set output order-normalised). Partial: dict and set are compared by testing only; sets of cross-type-equal or unhashable elements and non-string dict keys are listed findings.",
    technique="Rocq/Coq separation-invariant (refinement frame) proof over a Go-slice heap model + CPython differential on aliased container histories", ref="5/C17"),
+ "C14": dict(
+   text="Machine-checked proof (Coq), for every string of Unicode scalar values, that over the UTF-8 storage len counts code points, pos(n) is the encoded width of the first n code points, and the byte-offset slicing of py/string.go yields exactly the encoding of the code-point slice. The model's slice is compared inside Coq with s[a:b] computed by the implementation on generated strings; every other listed operation (indexing, iteration, in/find/count/startswith/endswith, split/join/strip/replace, comparison, repetition, ord/chr) and the repr round trip eval(repr(x)) == x (strings, and nested tuples/lists with ints, floats, big ints) are compared with CPython over all strings of length <= 2 and seeded longer ones from an alphabet mixing 1-4 byte characters, quotes, backslash, NUL and control characters.",
+   note="Trusted: Coq kernel; the byte-list model of len/pos/slice for valid UTF-8 (correspondence-tied); CPython 3.11 as validated oracle; Go's strings/unicode packages. Partial: searching/splitting/escaping are covered by differential testing only (no theorem for repr/eval); upper/lower special casing is outside the property.",
+   technique="Rocq/Coq induction over code-point lists for the UTF-8 offset arithmetic + vm_compute correspondence on slices + CPython differential", ref="5/C14"),
 }
 NOT_YET = "check not built yet in this round (planned in DESIGN.md section 8)"
 checks = []; na = []
